@@ -4,6 +4,7 @@ import os
 import sys
 import time
 
+from xcheck import cross_check
 from verif import (VERIF, REPO, Scratch, build_harness, coq_build, coq_property, coqchk, hygiene, instrument,
                    known_findings, log, ocaml_build, run_driver, run_harness, syncops_drift)
 
@@ -189,6 +190,18 @@ def run_check(spec, tier, seed, only_stage=None):
                                                "unchecked": "pred_%s_%s" % (pid, c["cmd"]),
                                                "case": {"stage": sname, "case": c["head"], "impl": c["impl"]}})
                 stats[sname + ".predicate_evaluations"] = len(okans)
+            # extraction cross-check: the first cases of this run, re-evaluated inside the kernel
+            if answers is not None and not spec.get("no_xcheck"):
+                nx, badx, errx = cross_check(pid, heads, answers, limit=(50 if tier == "quick" else 300))
+                stats[sname + ".extraction_crosschecked_in_kernel"] = nx
+                if errx:
+                    violations.append({"key": "corr_extraction_" + sname, "concrete": False,
+                                       "what": "in-kernel cross-check of the extracted code could not be evaluated: %s" % errx,
+                                       "unchecked": "corr_extraction_" + sname})
+                for h, a in badx[:3]:
+                    violations.append({"key": "corr_extraction_" + sname, "concrete": False,
+                                       "what": "extracted OCaml code answers %r where vm_compute evaluates otherwise for %s" % (a[:200], h[:300]),
+                                       "unchecked": "corr_extraction_" + sname})
             ai = 0
             n_mis = 0
             for c in cases:
